@@ -589,10 +589,10 @@ Definition load_image (e : et) : outcome (option aval * N * V) :=
   | Some i => Ok (eattr a_id e, euid e, Vl [Vn (euid e); Voaval (eattr a_id e); Vtext (etext i)])
   end.
 
-(* what a sid of the effect's local scope maps to *)
+(* what a sid of the effect's local scope maps to (surfaces and samplers remember the id of their image) *)
 Inductive lentry :=
-  | LSurface (uid : N) (image : N)
-  | LSampler (uid : N) (sid : option aval)
+  | LSurface (uid : N) (image : N) (imgid : atom)
+  | LSampler (uid : N) (sid : option aval) (imgid : atom)
   | LFloats (l : list N).
 Definition lscope := list (atom * lentry).
 
@@ -626,7 +626,7 @@ Fixpoint effect_params (numtab : list N) (images : lib) (ps : list et) (sc : lsc
                                      | None => Some [TWord a_A8R8G8B8]
                                      end in
                           obind (id_atom (eattr a_sid p)) (fun sid =>
-                          effect_params numtab images r (dset N.eqb sc sid (LSurface (euid p) img))
+                          effect_params numtab images r (dset N.eqb sc sid (LSurface (euid p) img imgid))
                                         (acc ++ [Vl [Vn 0%N; Vn (euid p); Voaval (eattr a_sid p); Vtext fmt; Vn img]]))
                       end
                   end
@@ -643,10 +643,10 @@ Fixpoint effect_params (numtab : list N) (images : lib) (ps : list et) (sc : lsc
                 | None => Raise OutOfFuel
                 | Some sfid =>
                     match dget N.eqb sc sfid with
-                    | Some (LSurface su _) =>
+                    | Some (LSurface su _ imgid) =>
                         let tx t := option_map etext (efind t sm) in
                         obind (id_atom (eattr a_sid p)) (fun sid =>
-                        effect_params numtab images r (dset N.eqb sc sid (LSampler (euid p) (eattr a_sid p)))
+                        effect_params numtab images r (dset N.eqb sc sid (LSampler (euid p) (eattr a_sid p) imgid))
                                       (acc ++ [Vl [Vn 1%N; Vn (euid p); Voaval (eattr a_sid p);
                                                    Vopt Vtext (tx a_minfilter); Vopt Vtext (tx a_magfilter); Vn su]]))
                     | _ => Raise DaeBrokenRef
@@ -671,13 +671,21 @@ Fixpoint effect_params (numtab : list N) (images : lib) (ps : list et) (sc : lsc
       end
   end.
 
-(* Map.load when the sampler is in the local scope (the repair paths for missing samplers are outside
-   the model) *)
-Definition load_map (sc : lscope) (tx : et) : outcome pval :=
+(* Map.load: the sampler of that sid, else (exporters that name the image) the first sampler of the scope whose
+   surface holds the image of that id; inr s: DaeMissingSampler2D for s *)
+Definition find_sampler (sc : lscope) (s : atom) : option (option aval) :=
+  match dget N.eqb sc s with
+  | Some (LSampler _ sid _) => Some sid
+  | _ => match List.find (fun kv => match snd kv with LSampler _ _ i => N.eqb i s | _ => false end) sc with
+         | Some (_, LSampler _ sid _) => Some sid
+         | _ => None
+         end
+  end.
+Definition load_map (sc : lscope) (tx : et) : outcome (pval + atom) :=
   match eattr a_texture tx with
-  | Some (AStr s) => match dget N.eqb sc s with
-                     | Some (LSampler _ sid) => Ok (PMap sid (eattr a_texcoord tx))
-                     | _ => Raise OutOfFuel
+  | Some (AStr s) => match find_sampler sc s with
+                     | Some sid => Ok (inl (PMap sid (eattr a_texcoord tx)))
+                     | None => Ok (inr s)
                      end
   | _ => Raise OutOfFuel
   end.
@@ -699,32 +707,34 @@ Definition spec_color (c : list N) : list N :=
   | _ => c
   end.
 
-(* Effect._loadShadingParam followed by the constructor's colour fix *)
-Definition shading_param (numtab : list N) (sc : lscope) (pnode : et) : outcome (option pval) :=
+(* Effect._loadShadingParam followed by the constructor's colour fix; inr s: the texture names a sampler s
+   that is not there *)
+Definition shading_param (numtab : list N) (sc : lscope) (pnode : et) : outcome (option pval + atom) :=
   match first_kid pnode with
   | None => Raise DaeIncomplete
   | Some v =>
       if has_own a_color v then
         match etext v with
         | None => Raise PyAttributeError
-        | Some l => omap (fun c => Some (PNum (pad_color c))) (of_option DaeMalformed (classes numtab l))
+        | Some l => omap (fun c => inl (Some (PNum (pad_color c)))) (of_option DaeMalformed (classes numtab l))
         end
       else if has_own a_float v then
         match etext v with
         | None => Raise PyTypeError
-        | Some [x] => omap (fun c => Some (PNum [c])) (of_option DaeMalformed (cls numtab x))
+        | Some [x] => omap (fun c => inl (Some (PNum [c]))) (of_option DaeMalformed (cls numtab x))
         | Some _ => Raise DaeMalformed
         end
-      else if has_own a_texture v then omap Some (load_map sc v)
+      else if has_own a_texture v then
+        omap (fun r => match r with inl m => inl (Some m) | inr s => inr s end) (load_map sc v)
       else if has_own a_param v then
         match eattr a_ref v with
         | Some (AStr r) => match dget N.eqb sc r with
-                           | Some (LFloats l) => Ok (Some (PNum l))
-                           | Some _ => Ok (Some POther)
-                           | None => Ok None
+                           | Some (LFloats l) => Ok (inl (Some (PNum l)))
+                           | Some _ => Ok (inl (Some POther))
+                           | None => Ok (inl None)
                            end
         | Some _ => Raise OutOfFuel
-        | None => Ok None
+        | None => Ok (inl None)
         end
       else Raise DaeUnsupported
   end.
@@ -740,6 +750,41 @@ Definition supported_props : list atom :=
   [a_emission; a_ambient; a_diffuse; a_specular; a_shininess; a_reflective; a_reflectivity;
    a_transparent; a_transparency; a_index_of_refraction].
 
+(* the loop over Effect.supported.  The repair path: a <texture> that names no sampler but the id of an image
+   of the document gets a Surface ("<id>-surface", A8R8G8B8) and a Sampler2D (<id>) made on the spot, appended
+   to the params and entered in the scope; the parameter is then loaded again.  The derived surface name is not
+   a string of the document: the view shows it as (3, image id). *)
+Fixpoint shading_props (numtab : list N) (images : lib) (sh : et) (keys : list atom) (sc : lscope) (params : list V)
+  : outcome (list (option pval) * lscope * list V) :=
+  match keys with
+  | [] => Ok ([], sc, params)
+  | key :: r =>
+      obind (match efind key sh with
+             | None => Ok (None, sc, params)
+             | Some pn =>
+                 obind (shading_param numtab sc pn) (fun res =>
+                 match res with
+                 | inl v => Ok (v, sc, params)
+                 | inr s =>
+                     match lib_get images s with
+                     | None => Raise OutOfFuel          (* the key stays unset: constructor default, outside the model *)
+                     | Some img =>
+                         let sc' := dset N.eqb sc s (LSampler 0%N (Some (AStr s)) s) in
+                         let params' := params ++ [Vl [Vn 0%N; Vn 0%N; Vl [Vn 3%N; Vn s]; Vtext (Some [TWord a_A8R8G8B8]); Vn img];
+                                                   Vl [Vn 1%N; Vn 0%N; Voaval (Some (AStr s)); Vnone; Vnone; Vn 0%N]] in
+                         obind (shading_param numtab sc' pn) (fun res2 =>
+                         match res2 with
+                         | inl v => Ok (v, sc', params')
+                         | inr _ => Raise OutOfFuel
+                         end)
+                     end
+                 end)
+             end) (fun one =>
+      let '(v, sc1, params1) := one in
+      obind (shading_props numtab images sh r sc1 params1) (fun rest =>
+      let '(vs, sc2, params2) := rest in Ok (v :: vs, sc2, params2)))
+  end.
+
 Definition load_effect (numtab : list N) (images : lib) (e : et) : outcome (option aval * N * V) :=
   match efind a_profile_COMMON e with
   | None => Raise DaeUnsupported
@@ -752,7 +797,6 @@ Definition load_effect (numtab : list N) (images : lib) (e : et) : outcome (opti
       | None => Raise PyAttributeError
       | Some tec =>
         obind (effect_params numtab images (efindall a_newparam tec) (fst r1) (snd r1)) (fun r2 =>
-        let sc := fst r2 in
         let shader := match efind a_phong tec with Some s => Some (a_phong, s) | None =>
                       match efind a_lambert tec with Some s => Some (a_lambert, s) | None =>
                       match efind a_blinn tec with Some s => Some (a_blinn, s) | None =>
@@ -760,10 +804,8 @@ Definition load_effect (numtab : list N) (images : lib) (e : et) : outcome (opti
         match shader with
         | None => Raise DaeIncomplete
         | Some (sk, sh) =>
-          obind (omapM (fun key => match efind key sh with
-                                   | None => Ok None
-                                   | Some pn => shading_param numtab sc pn
-                                   end) supported_props) (fun props =>
+          obind (shading_props numtab images sh supported_props (fst r2) (snd r2)) (fun pr =>
+          let '(props, sc, params) := pr in
           let transparent := nth 7 props None in
           let rgb_zero := match transparent, efind a_transparent sh with
                           | Some _, Some pn => match eattr a_opaque pn with
@@ -779,15 +821,14 @@ Definition load_effect (numtab : list N) (images : lib) (e : et) : outcome (opti
                                        end) (combine (seq 0 (length props)) props) in
           obind (match find_under_extra a_texture e with
                  | None => Ok None
-                 | Some b => match load_map sc b with
-                             | Ok m => Ok (Some m)
-                             | Raise OutOfFuel => Raise OutOfFuel
-                             | Raise x => Raise x
-                             end
+                 | Some b => obind (load_map sc b) (fun m => match m with
+                                                             | inl v => Ok (Some v)
+                                                             | inr _ => Raise DaeBrokenRef     (* since /repo f9cb138 *)
+                                                             end)
                  end) (fun bump =>
           Ok (eattr a_id e, euid e,
               Vl [Vn (euid e); Voaval (eattr a_id e); Vn sk; Vb (flag_one (find_under_extra a_double_sided e));
-                  Vn (if rgb_zero then a_RGB_ZERO else a_A_ONE); Vl (snd r2); Vl (map (Vopt Vpval) props');
+                  Vn (if rgb_zero then a_RGB_ZERO else a_A_ONE); Vl params; Vl (map (Vopt Vpval) props');
                   Vopt Vpval bump])))
         end)
       end)
